@@ -39,7 +39,7 @@ ASSUMPTIONS = ["field order inside an item follows choices column order (as the 
 def plan(tier, seed):
     n = 1600 if tier == "quick" else 24000
     return {"shards": 16, "timeout": 900 if tier == "quick" else 3600, "n": n,
-            "floors": {"suite_conversions_judged": 500, "instances_compared": n, "itemsets_parsed": n, "csv_compared": n // 12, "distinct": 100}}
+            "floors": {"suite_conversions_judged": 500, "instances_compared": n, "itemsets_parsed": n, "csv_compared": n // 12, "distinct": 100, "pulldata_channel_forms": 50}}
 
 
 EXTRA = ["region", "code", "grp", "lvl", "zone"]
@@ -575,9 +575,86 @@ def shared_filter_text_forms(ctx):
                         ctx.viol("shared-filter:predicate-reaches-another-node", f"{ref}: filter 'grp = ${{state}}' became {text!r}; from this select the question is at {want[ref]!r} (relative to current())", wit)
 
 
+PULLDATA_CHANNELS = ["calculation", "relevant", "constraint", "required", "read_only", "default", "choice_filter", "triggered-calculation",
+                     "group-relevant", "repeat-relevant", "repeat_count", "entity-label", "entity-create_if", "entity-update_if", "entity-entity_id"]
+
+
+def pulldata_channel_forms(ctx):
+    """A pulldata() call in every cell that holds an expression (question, group and repeat logic, dynamic default, filter, repeat count, triggered
+    calculation, the expressions of the entities sheet): the file it names is declared exactly once as jr://file-csv/<file>.csv - also when a second
+    cell names the same file."""
+    k = 0
+    for ch in PULLDATA_CHANNELS:
+        for call in ("pulldata('%s', 'a', 'b', ${k})", "pulldata ( \"%s\" , 'a', 'b', ${k})"):
+            for twice in (False, True):
+                k += 1
+                if not ctx.mine(k):
+                    continue
+                fn = f"pd{k}"
+                ex = call % fn
+                cmp_ = ex + " != ''"
+                rows = [Row("q", "text", "k", {"label": "K"})]
+                f = Form()
+                ent = None
+                if ch in ("calculation",):
+                    rows.append(Row("q", "calculate", "c", {"calculation": ex}))
+                elif ch in ("relevant", "constraint", "required", "read_only"):
+                    rows.append(Row("q", "text", "t", {"label": "T", ch: cmp_}))
+                elif ch == "default":
+                    rows.append(Row("q", "text", "t", {"label": "T", "default": ex}))
+                elif ch == "choice_filter":
+                    rows.append(Row("q", "select_one l1", "s", {"label": "S", "choice_filter": "name = " + ex}, meta={"list": "l1", "select": "select_one"}))
+                    f.choices = {"l1": [{"name": "a", "label": "A"}, {"name": "b", "label": "B"}]}
+                elif ch == "triggered-calculation":
+                    rows.append(Row("q", "text", "t", {"label": "T", "calculation": ex, "trigger": "${k}"}))
+                elif ch == "group-relevant":
+                    rows.append(Row("group", "begin group", "g", {"label": "G", "relevant": cmp_}, [Row("q", "text", "ing", {"label": "I"})]))
+                elif ch == "repeat-relevant":
+                    rows.append(Row("repeat", "begin repeat", "r", {"label": "R", "relevant": cmp_}, [Row("q", "text", "inr", {"label": "I"})]))
+                elif ch == "repeat_count":
+                    rows.append(Row("repeat", "begin repeat", "r", {"label": "R", "repeat_count": ex}, [Row("q", "text", "inr", {"label": "I"})]))
+                else:
+                    col = ch.split("-", 1)[1]
+                    ent = {"dataset": "trees", "label": "concat('x', ${k})"}
+                    if col == "label":
+                        ent["label"] = ex
+                    elif col == "create_if":
+                        ent["create_if"] = cmp_
+                    elif col == "update_if":
+                        ent.update({"update_if": cmp_, "entity_id": "${k}"})
+                    else:
+                        ent.update({"entity_id": ex})
+                        ent.pop("label")
+                if twice:
+                    rows.append(Row("q", "calculate", "again", {"calculation": "pulldata('%s', 'x', 'y', ${k})" % fn}))
+                f.survey = rows
+                if ent:
+                    f.entities = ent
+                try:
+                    o = drive.convert_form(f)
+                except Exception as e:  # noqa: BLE001 - a renderer problem is not pyxform's
+                    ctx.ctr("render_error")
+                    ctx.obs(kind="render_error", err=repr(e)[:200])
+                    continue
+                ctx.case(sig=f"pulldata-channel|{ch}|{call[:10]}|{twice}")
+                ctx.ctr("pulldata_channel_forms")
+                wit = common.witness(f, klass="pulldata-channel", channel=ch)
+                if not o.ok:
+                    ctx.viol(f"pulldata-channel:{ch}:refused", f"a valid form with pulldata() in {ch} was refused: {o.brief()[:200]}", wit)
+                    continue
+                p = xf.Parsed(o.xform)
+                m = [i for i in p.secondary if i.get("id") == fn]
+                if len(m) != 1:
+                    ctx.viol(f"external-instance:count:pulldata-in-{ch}", f"{ex!r} in {ch}{' (and in a calculation)' if twice else ''}: instance {fn!r} declared {len(m)} times; "
+                             f"instances: {[i.get('id') for i in p.secondary]}", wit)
+                elif m[0].get("src") != f"jr://file-csv/{fn}.csv":
+                    ctx.viol(f"external-instance:uri:pulldata-in-{ch}", f"instance {fn!r} src={m[0].get('src')!r}", wit)
+
+
 def run_shard(ctx):
     pl = plan(ctx.tier, ctx.seed)
     shared_filter_text_forms(ctx)
+    pulldata_channel_forms(ctx)
     for i in range(pl["n"]):
         if not ctx.mine(i):
             continue
@@ -592,6 +669,9 @@ def replay(w):
     def chk(ctx, wit):
         if wit.get("klass") == "shared-filter":
             shared_filter_text_forms(ctx)
+            return
+        if wit.get("klass") == "pulldata-channel":
+            pulldata_channel_forms(ctx)
             return
         check(ctx, common.form_from_witness(wit), "replay")
     return common.replay_with(PROP, w, chk)
